@@ -154,6 +154,16 @@ Proof.
     rewrite Q. split; [|left; reflexivity]. exists b, m. split; [reflexivity|exact Rest].
 Qed.
 
+Theorem adp_encode_meta_truth xs : adp_u64s xs -> (1 <= length xs)%nat -> N.of_nat (length xs) < 4294967296 ->
+  exists bytes m e, adp_encode xs = AEOk bytes m /\ hd 0 bytes = e /\
+    am_type m = e /\ am_count m = N.of_nat (length xs) /\ am_size m = N.of_nat (length bytes) /\
+    forall tl, exists pm,
+      adp_decode (bytes ++ tl) (N.of_nat (length xs)) = ADOk (N.of_nat (length xs)) xs pm.
+Proof.
+  intros H1 H2 H3. destruct (adp_encode_faithful xs H1 H2 H3) as (e & (b & m & A & B & C & D & E & _ & F) & _).
+  exists b, m, e. repeat split; assumption.
+Qed.
+
 (* ---------- C03 for every array, in or out of an encoding's domain ---------- *)
 Definition adp_written (r : adp_eres) : list N :=
   match r with AEOk b _ => b | AEFail b => b | AEUB => [] end.
